@@ -51,6 +51,13 @@ def h_lte_matching(h):
     # it remains to show that the returned v+ is the one the residual was solved with
     h.prove_eq("returned v+^2 is the entropy-conserving v+^2 used inside the residual",
                vp * vp, (Tm * Tm - Tp * Tp * (1 - vm * vm)) / (Tm * Tm), conc_rtol=1e-7)
+    # the returned velocities are the ones the junction relations were solved with
+    h.assume(core.ne(th.eHighT(Tp), th.eLowT(Tm)), "e+ != e- at the returned temperatures (1e50 guard outside)")
+    vpvm, vpovm = hy.vpvmAndvpovm(Tp, Tm)
+    h.prove_eq("returned v+^2 = (v+v-)(v+/v-) of the junction relations at the returned temperatures",
+               vp * vp, vpvm * vpovm, conc_rtol=1e-6)
+    h.prove_eq("returned v-^2 = (v+v-)/(v+/v-) of the junction relations at the returned temperatures",
+               vm * vm, vpvm / vpovm, conc_rtol=1e-6)
     cs2 = th.csqLowT(Tm)
     h.prove("v-^2 = min(vw^2, cs-^2)", OR(AND(eq(vm * vm, vw * vw), le(vw * vw, cs2)),
                                            AND(eq(vm * vm, cs2), le(cs2, vw * vw))))
